@@ -42,7 +42,7 @@ SKIP = {"convex"}
 
 def bounds_text(tier):
     if tier == "quick":
-        return "every registry key except 'convex' at n=3 (and n=4 for the cheap families); path budgets on covg / xs6 / oxs"
+        return "every registry key except 'convex' at n=3 (and n=4 for the cheap families) incl. networkx graph_random / graph_ws_connected with a random.Random-typed stub; graph_generator on a symbolic non-negative matrix n=3,4; each run followed by an in-between call with another player count and an identically seeded re-run; path budgets on covg / xs6 / oxs"
     return "every registry key except 'convex' at n=3,4 (5 for cheap families); covg n=3 to a 300000-path budget"
 
 
